@@ -131,6 +131,12 @@ func ExecuteManifest(t *testing.T, c *Case, keep bool) (out Outcome) {
 
 func runManifest(c *Case, dir string, keep bool, out *Outcome) *Violation {
 	e := NewEngine(c.Sched, c.Cfg.Groups)
+	renames := 0
+	e.OnIO = func(gid int64, kind, path string, off, n int64) {
+		if kind == "rename" {
+			renames++ // a MANIFEST rewrite (written aside, fsynced, renamed over the old file)
+		}
+	}
 	e.Install()
 	opt := badger.DefaultOptions(dir)
 	opt.Logger = nil
@@ -171,7 +177,7 @@ func runManifest(c *Case, dir string, keep bool, out *Outcome) *Violation {
 						chs = append(chs, &pb.ManifestChange{Id: uint64(so.Key), Op: pb.ManifestChange_DELETE})
 					}
 				}
-				before := fileSize(path)
+				renamesBefore := renames
 				err := mf.AddChanges(chs, opt)
 				mu.Lock()
 				if err != nil {
@@ -189,7 +195,7 @@ func runManifest(c *Case, dir string, keep bool, out *Outcome) *Violation {
 					}
 				}
 				after := fileSize(path)
-				if after <= before {
+				if renames != renamesBefore {
 					rewrites++
 					hist = []applied{{state: cloneTables(model), size: after}} // everything before is folded into the rewrite
 				} else {
